@@ -82,3 +82,46 @@ package phase2
 //@     invariant exists j int :: 0 <= j && j < len(g.Nodes) && height[g.Nodes[j]] == nlayers
 //@     invariant nodesClosed(g) && outWF() && memoOK(height)
 //@     invariant forall k int :: 0 <= k && k < c ==> g.Nodes[k].Layer == nlayers - height[g.Nodes[k]]
+
+// ---------------------------------------------------------------------------
+// network simplex: certificate contracts (C10)
+
+//@ spec edgeListOK(g *DGraph) bool =
+//@   (forall i int :: 0 <= i && i < len(g.Edges) ==> g.Edges[i] != nil && g.Edges[i].From != nil && g.Edges[i].To != nil)
+//@   && (forall i int, j int :: 0 <= i && i < j && j < len(g.Edges) ==> g.Edges[i] != g.Edges[j])
+
+// contribution of the non-tree edge f to the cut value of the tree edge e (w.r.t. the head component test of the code)
+//@ spec cutContrib(p *networkSimplexProcessor, f *Edge, e *Edge) int =
+//@   f.IsInSpanningTree ? 0 :
+//@   ((!p.inHeadComponent(f.From, e) && p.inHeadComponent(f.To, e)) ? f.Weight :
+//@    ((p.inHeadComponent(f.From, e) && !p.inHeadComponent(f.To, e)) ? 0 - f.Weight : 0))
+
+// sum of the contributions of the first k edges of the edge list
+//@ spec cutPre(p *networkSimplexProcessor, g *DGraph, e *Edge, k int) int =
+//@   k <= 0 ? 0 : cutPre(p, g, e, k - 1) + cutContrib(p, g.Edges[k-1], e)
+
+// The cut value of every tree edge is its weight plus the weights of the non-tree edges from the tail to the head
+// component minus those from the head to the tail component - a function of the tree and the numbering only,
+// in particular independent of the value stored before.
+//@ func networkSimplexProcessor.setCutValues
+//@   requires p != nil && g != nil && p.lim != nil && p.low != nil && edgeListOK(g)
+//@   modifies Edge.CutValue
+//@   ensures[cut] forall i int :: 0 <= i && i < len(g.Edges) && g.Edges[i].IsInSpanningTree ==>
+//@       g.Edges[i].CutValue == g.Edges[i].Weight + cutPre(p, g, g.Edges[i], len(g.Edges))
+//@   ensures[nontree] forall i int :: 0 <= i && i < len(g.Edges) && !g.Edges[i].IsInSpanningTree ==> g.Edges[i].CutValue == old(g.Edges[i].CutValue)
+//@   loop range(g.Edges)#1 index a
+//@     invariant forall i int :: 0 <= i && i < a && g.Edges[i].IsInSpanningTree ==>
+//@       g.Edges[i].CutValue == g.Edges[i].Weight + cutPre(p, g, g.Edges[i], len(g.Edges))
+//@     invariant forall i int :: 0 <= i && i < len(g.Edges) && (i >= a || !g.Edges[i].IsInSpanningTree) ==> g.Edges[i].CutValue == old(g.Edges[i].CutValue)
+//@   loop range(g.Edges)#2 index b
+//@     invariant e.CutValue == e.Weight + cutPre(p, g, e, b)
+//@     invariant forall f *Edge :: f != e ==> f.CutValue == loopold(f.CutValue)
+
+//@ func negCutValueTreeEdge
+//@   requires forall i int :: 0 <= i && i < len(edges) ==> edges[i] != nil
+//@   modifies nothing
+//@   ensures[none] result == nil <==> (forall i int :: 0 <= i && i < len(edges) ==> !(edges[i].IsInSpanningTree && edges[i].CutValue < 0))
+//@   ensures[first] result != nil ==> (exists i int :: 0 <= i && i < len(edges) && result == edges[i] && edges[i].IsInSpanningTree && edges[i].CutValue < 0
+//@       && (forall j int :: 0 <= j && j < i ==> !(edges[j].IsInSpanningTree && edges[j].CutValue < 0)))
+//@   loop range(edges)#1 index i
+//@     invariant forall j int :: 0 <= j && j < i ==> !(edges[j].IsInSpanningTree && edges[j].CutValue < 0)
